@@ -61,6 +61,8 @@ def families(tier):
         ("G2-three-nucleotides", lambda: iter(fam.g2(tier)), 8),
         ("G3-corpus", lambda: fam.corpus_cases(tier, G3_Q, G3_T), 16),
         ("near-threshold", lambda: fam.near_threshold_cases(), 16),
+        # several independent placements in one structure, among them the placements whose base-phosphate / base-ribose contacts merge (3+5 -> 4, 7+9 -> 8)
+        ("composed", lambda: fam.composed_cases(tier), 8),
         ("all-models", lambda: multi_model_cases(), 1),
         # one structure object holding two models (numbered 1/2, 0/1 or 5/2) of different geometry: every model's annotation must be well-formed on its own
         ("two-models", lambda: itertools.chain(fam.two_model_cases(fam.g1_stack("quick"), 41, 5), fam.two_model_cases(fam.g1_pairs("quick"), 17, 3)), 8),
